@@ -11,6 +11,7 @@ non-trivial model.
 import FuraxProofs.Lemmas.ArithSound
 import FuraxProofs.Lemmas.Tables
 import FuraxProofs.Lemmas.ScalarModel
+import FuraxProofs.Sem.ListModel
 namespace Furax.C02
 open Furax Op
 
@@ -73,5 +74,39 @@ theorem add_sub_reject (a b : Op) (hs : Op.inS a ≠ Op.inS b ∨ Op.outS a ≠ 
 
 /-- non-vacuity: the laws assumed above are satisfied by a concrete non-trivial semantics -/
 theorem framework_inhabited : Nonempty (ArithSem Rat) := ⟨scalarArithSem⟩
+
+/-! ### in the faithful list denotation (FuraxProofs/Sem): no law is assumed -/
+
+/-- `A @ B` computes `A(B(x))` on every vector of the input size, whatever shortcut the constructors took -/
+theorem matmul_den_closed (E : ListSem.Env) (a b r : Op) (ha : ArithSem.WFtop a) (hb : ArithSem.WFtop b)
+    (hbs : StructOK b) (hai : (ListSem.listArithSem E).LazyInvertible a)
+    (hbi : (ListSem.listArithSem E).LazyInvertible b) (h : pyMatmul a b = .ok r) :
+    Op.inS a = Op.outS b ∧ Op.inS r = Op.inS b ∧ Op.outS r = Op.outS a ∧
+    ∀ x : List ℝ, x.length = (Op.inS b).size → ListSem.den E r x = ListSem.den E a (ListSem.den E b x) :=
+  (ListSem.listArithSem E).pyMatmul_den a b r ha hb hbs hai hbi h
+
+/-- `A + B` computes the entry-wise sum of the two results -/
+theorem add_den_closed (E : ListSem.Env) (a b r : Op) (ha : ArithSem.WFtop a) (hb : ArithSem.WFtop b)
+    (h : pyAdd a b = .ok r) :
+    Op.inS a = Op.inS b ∧ Op.outS a = Op.outS b ∧ Op.inS r = Op.inS a ∧ Op.outS r = Op.outS a ∧
+    ∀ x : List ℝ, ListSem.den E r x = ListSem.vadd (ListSem.den E a x) (ListSem.den E b x) :=
+  let ⟨h1, h2, h3, h4, _, h6⟩ := (ListSem.listArithSem E).pyAdd_den a b r ha hb h
+  ⟨h1, h2, h3, h4, h6⟩
+
+/-- `k * A` and `A * k` scale every entry of the result -/
+theorem rmul_den_closed (E : ListSem.Env) (k : Rat) (a r : Op) (ha : ArithSem.WFtop a) (has : StructOK a)
+    (hai : (ListSem.listArithSem E).LazyInvertible a) (h : pyRmul k a = .ok r) :
+    Op.inS r = Op.inS a ∧ Op.outS r = Op.outS a ∧
+    ∀ x : List ℝ, x.length = (Op.inS a).size →
+      ListSem.den E r x = (ListSem.den E a x).map fun v => (k : ℝ) * v :=
+  (ListSem.listArithSem E).pyRmul_den k a r ha has hai h
+
+/-- `A / k` -/
+theorem truediv_den_closed (E : ListSem.Env) (k : Rat) (a r : Op) (ha : ArithSem.WFtop a) (has : StructOK a)
+    (hai : (ListSem.listArithSem E).LazyInvertible a) (h : pyTruediv a k = .ok r) :
+    k ≠ 0 ∧ Op.inS r = Op.inS a ∧ Op.outS r = Op.outS a ∧
+    ∀ x : List ℝ, x.length = (Op.inS a).size →
+      ListSem.den E r x = (ListSem.den E a x).map fun v => ((1 / k : Rat) : ℝ) * v :=
+  (ListSem.listArithSem E).pyTruediv_den k a r ha has hai h
 
 end Furax.C02
